@@ -402,6 +402,51 @@ class Fn:
         return None
 
 
+def const_of(n, types):
+    """constant value of an initialiser expression tree (C initialisers, which clang's evaluator does not fold in C mode)"""
+    if n is None:
+        return {"opaque": "null"}
+    k = n["k"]
+    if k == "int":
+        d = {"int": n["v"]}
+        if n.get("name"):
+            d["name"] = n["name"]
+        return d
+    if k == "float":
+        return {"float": n["v"]}
+    if k == "fn":
+        return {"fn": n["n"]}
+    if k == "str":
+        return {"str": n["v"]}
+    if k in ("cast", "decay", "complit"):
+        return const_of(n["a"][0], types)
+    if k == "zeroinit":
+        t = types[n["t"]] if n.get("t", -1) >= 0 else {}
+        if "arr" in t:
+            return {"array": [{"int": 0}] * t["arr"]}
+        return {"int": 0, "zero": True}
+    if k == "un" and n["op"] == "addr":
+        x = n["a"][0]
+        if x["k"] == "var":
+            return {"addr": x["n"]}
+        return {"opaque": "addr"}
+    if k == "un" and n["op"] == "-":
+        v = const_of(n["a"][0], types)
+        if "int" in v:
+            return {"int": -v["int"]}
+    if k == "init":
+        t = types[n["t"]] if n.get("t", -1) >= 0 else {}
+        if "fields" in n and "arr" not in t:
+            return {"struct": {fld: const_of(a, types) for fld, a in zip(n["fields"], n["a"])}}
+        elems = [const_of(a, types) for a in n["a"]]
+        if "arr" in t and len(elems) < t["arr"]:
+            elems = elems + [{"int": 0, "zero": True}] * (t["arr"] - len(elems))
+        return {"array": elems}
+    if k == "var":
+        return {"var": n["n"]}
+    return {"opaque": k}
+
+
 class Unit:
     def __init__(self, path):
         with open(path) as f:
@@ -412,6 +457,9 @@ class Unit:
         self.records = j["records"]
         self.enums = j["enums"]
         self.globals = {g["n"]: g for g in j["globals"]}
+        for g in self.globals.values():
+            if g.get("init") is None and g.get("init_expr") is not None:
+                g["init"] = const_of(g["init_expr"], self.types)
         self.functions = [Fn(f, self) for f in j["functions"]]
 
 
